@@ -66,6 +66,12 @@ func (rs *RuleSpec) program() *Program {
 		t = InlineOf(oneofD("", fld("a", InlineOf(obj("", fld("x", T(TString))))), fld("b", InlineOf(obj("")))))
 	default:
 		t = T(rs.Kind)
+		if rs.Array && rs.Kind == TObject {
+			t = InlineOf(obj("", fld("x", T(TString))))
+		}
+		if rs.Array && rs.Kind == TOneof {
+			t = InlineOf(oneofD("", fld("a", InlineOf(obj("", fld("x", T(TString)))))))
+		}
 	}
 	if rs.Family == "key" && rs.KeyFormat == "custom" {
 		t = T(TKey)
@@ -351,6 +357,17 @@ func OtherRuleSpecs() []*RuleSpec {
 	mk("float:list", "float", TFloat64, "listRules.filtering.filterable = true", "listRules.sorting.sortable = true")
 	mk("enum:list", "enum", TEnum, "listRules.filtering.filterable = true")
 	mk("oneof:list-filter", "oneof", TOneof, "listRules.filtering.filterable = true")
+	// item-count and uniqueness rules on arrays of every kind of item (read-back only)
+	for _, k := range []TKind{TObject, TOneof, TDate, TDecimal, TTimestamp, TAny, TBool, TFloat64, TBytes, TKeyUUID} {
+		for ui, un := range []*bool{bp(true), bp(false), nil} {
+			rs := &RuleSpec{ID: fmt.Sprintf("array-of-%s:counts:%d", k, ui), Family: "array", Kind: k, Array: true, MinItems: u64(1), MaxItems: u64(3), Unique: un, Item: &RuleSpec{Family: "item", Kind: k}}
+			rs.Attrs = []string{"rules.minItems = 1", "rules.maxItems = 3"}
+			if un != nil {
+				rs.Attrs = append(rs.Attrs, fmt.Sprintf("rules.uniqueItems = %v", *un))
+			}
+			out = append(out, rs)
+		}
+	}
 	mk("array:single-form", "array-ext", TString, `ext.singleForm = "tag"`)
 	mk("map:single-form", "map", TString, `ext.singleForm = "entry"`)
 	return out
